@@ -7,7 +7,7 @@ sc = '/var/tmp/vp/ks'; os.makedirs(sc, exist_ok=True)
 repo = os.environ.get('VERIF_REPO', '/repo')
 d = runkani.build(crate, appends, repo, sc)
 print('fidelity', runkani.fidelity(crate, appends, repo, d))
-r = runkani.run(d, hs, jobs=int(os.environ.get('J', '4')), timeout=int(os.environ.get('T', '1800')))
+r = runkani.run(d, hs, jobs=int(os.environ.get('J', '4')), timeout=int(os.environ.get('T', '1800')), harness_timeout=int(os.environ['HT']) if os.environ.get('HT') else None)
 print(r['rc'], round(r['wall_s'], 1))
 for k, v in r['harnesses'].items():
     print(k, v['status'], v['time_s'], v['n_checks'], v['failed_checks'])
